@@ -68,6 +68,12 @@ def cases(tier):
     # inadmissible): node-and-edge states, where the end-point rule produces such candidates
     for gs in ms.graph_slice("n3"):
         yield {"gs": list(gs), "labels": "int", "T": 3, "backends": ["inmem"], "noise": [0], "debug": True}
+    # a matcher object that was used for another trace before: a plain match() must start afresh
+    for name, pos, g in ms.special_graphs():
+        yield {"gs": ms.explicit(g), "pos": pos, "labels": "int", "T": 3, "backends": ["inmem"], "name": name, "noise": [0], "reuse": True}
+    for gs in ms.graph_slice("n3"):
+        if gs[0] == "GENERIC" or tier == "thorough":
+            yield {"gs": list(gs), "labels": "int", "T": 3, "backends": ["inmem"], "noise": [0], "reuse": True, "only_T": 2}
     lvl = "n4e3" if tier == "quick" else "n4e6"
     for gs in ms.graph_slice(lvl):
         if gs[1] == 4:
@@ -161,6 +167,9 @@ def run_case(case):
                     res["n"] += 1
                     m = ms.make_matcher(mp, cfg)
                     try:
+                        if case.get("reuse"):
+                            # the matcher object has already been used for ANOTHER trace (the reversed one, shifted)
+                            m.match([(p[0] + 0.37, p[1] - 0.21) for p in trace[::-1]] + [trace[0]])
                         r = m.match(list(trace))
                     except Exception as exc:  # noqa
                         r = exc
@@ -174,6 +183,8 @@ def run_case(case):
                     mini = {"gs": egraph, "pos": pos, "labels": case.get("labels", "int"), "trace": trace, "cfg": cfg, "backends": [backend]}
                     if case.get("debug"):
                         mini["debug"] = True
+                    if case.get("reuse"):
+                        mini["reuse"] = True
                     if msgs and backend == "inmem" and model.only_edges and model.max_dist_init != float("inf"):
                         # D2 predicate: in-memory start candidates = edges whose START NODE is inside the box of
                         # half-width max_dist_init around the first observation
